@@ -183,6 +183,8 @@ func bridgeGovStaking() []*abci.ResponseFinalizeBlock {
 	copy(target[:], chain)
 	cc, _ := cctypes.GetABI().Pack("crossChain", usdt.ERC20, scen.ExtAddr(chain, "u1-ext"), big.NewInt(2), big.NewInt(1), target, "")
 	h.evm(u1, cctypes.GetAddress(), cc, nil)
+	// an outgoing bridge call that carries two different tokens
+	h.cosmos(u1, &cctypes.MsgBridgeCall{ChainName: chain, Sender: u1.Bech(), Refund: u1.Bech(), Coins: sdk.NewCoins(sdk.NewInt64Coin("FX", 2), sdk.NewInt64Coin("usdt", 3)), To: scen.ExtAddr(chain, "callee"), Data: "02", Value: sdkmath.ZeroInt()})
 	h.block(func(ctx sdk.Context) {
 		if r := scen.Approve(w, ctx, chain, os[:6]); !r.OK() {
 			panic("dropping two oracles: " + r.String())
